@@ -6,6 +6,7 @@ import (
 	"fmt"
 	"io"
 	"sync"
+	"time"
 
 	"github.com/lightninglabs/lightning-node-connect/hashmailrpc"
 	"google.golang.org/grpc"
@@ -33,14 +34,16 @@ type fakeRelay struct {
 	seen  []relaySeen
 	// fault decides what happens to the n-th message sent to a stream:
 	// "deliver", "drop", "senderr" (Send fails, message lost), "recverr" (the reader's Recv fails once)
-	fault       func(stream string, n int) string
-	counts      map[string]int
-	recvErr     map[string]int // pending injected receive errors per stream
-	newBox      int
-	streams     int
-	failClose   bool // closing a stream reports an error (the stream is closed all the same)
-	unreachable bool // new send streams cannot be opened
-	failDelOnce bool // the next DelCipherBox call fails
+	fault                   func(stream string, n int) string
+	counts                  map[string]int
+	recvErr                 map[string]int // pending injected receive errors per stream
+	newBox                  int
+	streams                 int
+	failClose               bool          // closing a stream reports an error (the stream is closed all the same)
+	unreachable             bool          // new send streams cannot be opened
+	failDelOnce             bool          // the next DelCipherBox call fails
+	wsRecvDelay             time.Duration // the first WebSocket receive dial is answered this late
+	wsSendDials, wsSendOpen int           // WebSocket send sockets dialled / still open
 }
 
 func (r *fakeRelay) setFailClose(v bool) {
@@ -102,6 +105,7 @@ type relaySend struct {
 	dummyStream
 	r      *fakeRelay
 	closed bool
+	broken bool // a stream that has reported an error stays unusable, as a gRPC stream does
 }
 
 func (s *relaySend) CloseSend() error { s.closed = true; return s.r.closeErr() }
@@ -112,6 +116,9 @@ func (s *relaySend) CloseAndRecv() (*hashmailrpc.CipherBoxDesc, error) {
 func (s *relaySend) Send(b *hashmailrpc.CipherBox) error {
 	if s.ctx.Err() != nil {
 		return s.ctx.Err()
+	}
+	if s.broken {
+		return errors.New("send on a broken stream")
 	}
 	r := s.r
 	r.mu.Lock()
@@ -138,6 +145,7 @@ func (s *relaySend) Send(b *hashmailrpc.CipherBox) error {
 	case "drop":
 		return nil
 	case "senderr":
+		s.broken = true
 		return errors.New("injected send failure")
 	}
 	box.ch <- msg
